@@ -268,7 +268,7 @@ UnaryChecks(cfg, pre, post, ln) ==
          MutateChecks(cfg, pre, post, ln, c, <<>>, 0, Opt(FALSE, TRUE, TRUE, FALSE, TRUE, 0, -1, TRUE))
          \cup { Chk("C18", "clear-never-throws", TRUE, ln.out = "ok") }
     [] op = "resize" ->
-         MutateChecks(cfg, pre, post, ln, c, ResizeTo(vs, a[1], <<0, 0>>), a[1], Opt(TRUE, TRUE, TRUE, TRUE, TRUE, Min(sz, a[1]), -1, TRUE))
+         MutateChecks(cfg, pre, post, ln, c, ResizeTo(vs, a[1], <<cfg.defval, 0>>), a[1], Opt(TRUE, TRUE, TRUE, TRUE, TRUE, Min(sz, a[1]), -1, TRUE))
     [] op = "resize_v" ->
          LET want == ResizeTo(vs, a[1], ArgVal(x, a[2], ln)) IN
          MutateChecks(cfg, pre, post, ln, c, want, a[1], Opt(TRUE, TRUE, TRUE, TRUE, TRUE, Min(sz, a[1]), -1, TRUE))
@@ -288,7 +288,7 @@ UnaryChecks(cfg, pre, post, ln) ==
            Chk("C01", "at:out_of_range", a[1] >= sz, ln.out = "out_of_range"),
            Chk("C01", "at:no-effect", TRUE, y = x /\ post.blocks = pre.blocks /\ NoEvents(ln.evs)) }
     [] op = "erase_val" ->
-         LET P(v) == v[1] = a[1] IN
+         LET P(v) == ElemEq(cfg.flt, v[1], a[1]) IN
          MutateChecks(cfg, pre, post, ln, c, RemoveIf(vs, P), 0, Opt(FALSE, FALSE, TRUE, FALSE, TRUE, 0, -1, TRUE))
          \cup { Chk("C16", "erase:removes-exactly-the-matches", ln.out = "ok",
                     y.e = RemoveIf(vs, P) /\ ln.ret = CountIf(vs, P)) }
@@ -341,7 +341,7 @@ CtorChecks(cfg, pre, post, ln) ==
   FrameChecks(pre, post, c) \cup
   CASE op = "ctor_def" -> CtorCommon(cfg, post, ln, c, <<>>, al)
                           \cup { Chk("C18", "ctor_def:never-throws", TRUE, ln.out = "ok" /\ NoEvents(ln.evs)) }
-    [] op = "ctor_n"   -> CtorCommon(cfg, post, ln, c, Rep(a[2], 0), al)
+    [] op = "ctor_n"   -> CtorCommon(cfg, post, ln, c, Rep(a[2], cfg.defval), al)
     [] op = "ctor_nv"  -> CtorCommon(cfg, post, ln, c, Rep(a[2], ln.v[1]), al)
     [] op = "ctor_gen" -> CtorCommon(cfg, post, ln, c, ln.v, al)
                           \cup { Chk("C15", "generator-called-exactly-count-times", ln.out = "ok", ln.ret2 = a[2]) }
@@ -467,7 +467,7 @@ BinaryChecks(cfg, pre, post, ln) ==
                 Chk("C07", "append(&&):source-allocator-kept", ok, AllocEq(cfg, ys.al, xs.al)) }
     [] op = "cmp" ->
          { Chk("C16", "comparison-operators=std::vector", ok,
-               ln.ret = CmpMask(Vals(xd), Vals(xs), ln.ret >= 512)),
+               ln.ret = CmpMaskF(cfg.flt, Vals(xd), Vals(xs), ln.ret >= 512)),
            Chk("C16", "comparison:never-throws,no-effect", TRUE, ok /\ yd = xd /\ ys = xs /\ NoEvents(ln.evs)) }
     [] OTHER -> { Chk("INTERNAL", "unknown-binary-op", TRUE, FALSE) }
 
